@@ -154,4 +154,76 @@ theorem allow_complete (key : Route → List Sym) (fuel0 : Nat) (routes : List (
         exact List.mem_map.mpr ⟨pm.2, present_unique hp hwf hdis rs ht, rfl⟩
 
 #print axioms allow_complete
+
+/-- **every stored route was inserted.** `build_noJunk` holds for *any* key function that is right on the inserted
+    routes; were a stored route `r` not inserted, a key that is wrong on `r` alone would still satisfy the hypothesis,
+    and `build_noJunk` would contradict it. -/
+theorem stored_inserted (key : Route → List Sym) (fuel0 : Nat) (routes : List (Bytes × Route)) (n : Node)
+    (hr : ∀ pm ∈ routes, ∃ sp, Syms pm.1 sp ∧ key pm.2 = sp)
+    (hb : buildFrom fuel0 emptyRoot routes = .ok n)
+    {t : List Sym} {rs : List Route} (ht : (t, rs) ∈ tb n) {r : Route} (hrm : r ∈ rs) :
+    ∃ pm ∈ routes, pm.2 = r := by
+  classical
+  by_cases hex : ∃ pm ∈ routes, pm.2 = r
+  · exact hex
+  · exfalso
+    let key' : Route → List Sym := fun r' => if r' = r then t ++ [some 0] else key r'
+    have hr' : ∀ pm ∈ routes, ∃ sp, Syms pm.1 sp ∧ key' pm.2 = sp := by
+      intro pm hpm
+      obtain ⟨sp, hs, hk⟩ := hr pm hpm
+      refine ⟨sp, hs, ?_⟩
+      have hne : pm.2 ≠ r := fun h => hex ⟨pm, hpm, h⟩
+      simp only [key', hne, if_false]
+      exact hk
+    obtain ⟨_, hnj⟩ := build_noJunk key' fuel0 routes n hr' hb
+    have := hnj (t, rs) ht r hrm
+    simp [key'] at this
+
+#print axioms stored_inserted
+
+/-- **C05, 405 clause, both inclusions**: `Allow` is exactly the set of methods of the inserted routes of the
+    dispatched template -/
+theorem allow_exact (key : Route → List Sym) (fuel0 : Nat) (routes : List (Bytes × Route)) (n : Node)
+    (hr : ∀ pm ∈ routes, ∃ sp, Syms pm.1 sp ∧ key pm.2 = sp)
+    (hb : buildFrom fuel0 emptyRoot routes = .ok n)
+    (fuel : Nat) (method : String) (elem : Bytes) (allow : List String)
+    (h : serve fuel n method elem = .notAllowed allow) :
+    ∃ t args, Fill t args elem ∧ method ∉ allow ∧
+      ∀ m', m' ∈ allow ↔ ∃ pm ∈ routes, key pm.2 = t ∧ pm.2.method = m' := by
+  unfold serve at h
+  cases he : edge fuel n elem with
+  | none => simp [he] at h
+  | some res =>
+    obtain ⟨rs, args⟩ := res
+    simp only [he] at h
+    cases hf : rs.find? (fun r => r.method == method) with
+    | some r => simp [hf] at h
+    | none =>
+      simp only [hf] at h
+      cases h
+      obtain ⟨t, ht, hfill⟩ := edge_good fuel n elem (rs, args) he
+      have hr' : ∀ pm ∈ routes, ∃ sp, Syms pm.1 sp := fun pm hpm => let ⟨sp, hs, _⟩ := hr pm hpm; ⟨sp, hs⟩
+      obtain ⟨hwf, hdis, hpres⟩ := build_present fuel0 routes n hr' hb
+      obtain ⟨_, hnj⟩ := build_noJunk key fuel0 routes n hr hb
+      refine ⟨t, args, hfill, ?_, ?_⟩
+      · intro hmem
+        obtain ⟨r, hrm, hrm2⟩ := List.mem_map.mp hmem
+        have := List.find?_eq_none.mp hf r hrm
+        simp [hrm2] at this
+      · intro m'
+        constructor
+        · intro hm
+          obtain ⟨r, hrm, hrm2⟩ := List.mem_map.mp hm
+          obtain ⟨pm, hpm, hpr⟩ := stored_inserted key fuel0 routes n hr hb ht hrm
+          have hk := hnj (t, rs) ht r hrm
+          simp only [List.nil_append] at hk
+          exact ⟨pm, hpm, by rw [hpr]; exact hk, by rw [hpr]; exact hrm2⟩
+        · rintro ⟨pm, hpm, hkey, hmeth⟩
+          obtain ⟨sp, hs, hk⟩ := hr pm hpm
+          have hp := hpres pm hpm sp hs
+          have : sp = t := by rw [← hk, hkey]
+          subst this
+          exact List.mem_map.mpr ⟨pm.2, present_unique hp hwf hdis rs ht, hmeth⟩
+
+#print axioms allow_exact
 end Tree
